@@ -839,6 +839,8 @@ impl Adf {
 
         log::debug!("start learning loop");
         loop {
+            #[cfg(adf_obdd_verif)]
+            crate::verif::nogood_tick();
             log::trace!("interpr: {:?}", cur_interpr);
             log::trace!("choice: {}", choice);
             if choice {
